@@ -238,6 +238,11 @@ class Interp(object):
             if name in module.classes:
                 return Ext("class:%s.%s" % (module.name, name))
             if name in module.assigns:
+                if module_state_is_mutated(module, name):
+                    # a module-level variable that some FUNCTION rebinds or mutates: its value at a call depends on the
+                    # process's history (a cache, a counter), which no contract on one call can describe
+                    raise OutOfSubset("module-level variable %s.%s is modified inside a function: its value depends on earlier calls"
+                                      % (module.name, name))
                 saved = self.spec_mode
                 try:
                     return self.module_value(name, module)
@@ -952,6 +957,59 @@ def parse_expr(expr):
     if expr not in _parse_cache:
         _parse_cache[expr] = ast.parse(expr.strip(), mode="eval").body
     return _parse_cache[expr]
+
+
+_MUTATORS = {"append", "extend", "insert", "pop", "popitem", "remove", "clear", "update", "setdefault", "add", "discard",
+             "move_to_end", "appendleft", "popleft", "sort", "reverse", "__setitem__", "__delitem__"}
+_MUT_CACHE = {}
+
+
+def module_state_is_mutated(module, name):
+    """Is the module-level variable ``name`` rebound (``global name``) or mutated in place (subscript / attribute store,
+    augmented assignment, mutating method call) inside any function of that module?"""
+    key = (module.name, name)
+    if key in _MUT_CACHE:
+        return _MUT_CACHE[key]
+    tree = getattr(module, "tree", None)
+    found = False
+    if tree is not None:
+        for fn in ast.walk(tree):
+            if not isinstance(fn, (ast.FunctionDef, ast.AsyncFunctionDef, ast.Lambda)):
+                continue
+            # a local of the same name shadows the global unless declared global
+            declared_global = any(isinstance(n, ast.Global) and name in n.names for n in ast.walk(fn))
+            assigned_local = any(isinstance(n, ast.Name) and n.id == name and isinstance(n.ctx, ast.Store) for n in ast.walk(fn))
+            params = set()
+            if not isinstance(fn, ast.Lambda) or True:
+                a = fn.args
+                params = {x.arg for x in a.posonlyargs + a.args + a.kwonlyargs} | ({a.vararg.arg} if a.vararg else set()) | ({a.kwarg.arg} if a.kwarg else set())
+            if name in params or (assigned_local and not declared_global):
+                continue
+            if declared_global and assigned_local:
+                found = True
+                break
+            for n in ast.walk(fn):
+                if isinstance(n, (ast.Subscript, ast.Attribute)) and isinstance(n.ctx, (ast.Store, ast.Del)):
+                    b = n.value
+                    while isinstance(b, (ast.Subscript, ast.Attribute)):
+                        b = b.value
+                    if isinstance(b, ast.Name) and b.id == name:
+                        found = True
+                elif isinstance(n, ast.AugAssign):
+                    b = n.target
+                    while isinstance(b, (ast.Subscript, ast.Attribute)):
+                        b = b.value
+                    if isinstance(b, ast.Name) and b.id == name and not isinstance(n.target, ast.Name):
+                        found = True
+                elif (isinstance(n, ast.Call) and isinstance(n.func, ast.Attribute) and n.func.attr in _MUTATORS
+                      and isinstance(n.func.value, ast.Name) and n.func.value.id == name):
+                    found = True
+                if found:
+                    break
+            if found:
+                break
+    _MUT_CACHE[key] = found
+    return found
 
 
 class RangeVal(object):
